@@ -268,7 +268,7 @@ def run(prop, tier, replay=None):
     rep.extra["constructions"] = len(cases)
     rep.cov["states"] = max(rep.cov["states"], 1)
     rep.cov["transitions"] = max(rep.cov["transitions"], 1)
-    rep.cov["samples"] = [{"program": cases[0]["prog"], "decl": traces[0]["decl"], "obs": traces[0]["obs"][:4]}]
+    rep.cov["samples"] = [{"program": cases[0]["prog"], "decl": traces[0]["decl"], "obs": traces[0]["obs"][:4]}] if cases else []
     rep.extra["sources"] = __import__("btload").source_info()
     rep.assumptions = ["construction programs with <= 3 levels; a security declared by a string that is not a data column is treated as absent", "lazy children are made real by a zero allocation before the tree is observed"]
     return rep.finish(known_db)
